@@ -235,7 +235,11 @@ func naiveCounts(cells []byte) map[uint8]int {
 func checkCounts(c countCase) (o pbt.Outcome, err error) {
 	a := resolve(c.Ali, c.F)
 	sizeClass(&o, c.F)
-	al := gen.MustBuild(a)
+	return countsOn(gen.MustBuild(a), a, o)
+}
+
+// countsOn judges the character counts of the alignment object al, whose content is a
+func countsOn(al align.Alignment, a gen.Ali, o pbt.Outcome) (pbt.Outcome, error) {
 	n, l := len(a.Rows), a.Length()
 	mixed := isMixed(a)
 	// whole alignment
@@ -437,13 +441,16 @@ func inInts(l []int, v int) bool {
 func checkMajority(c majCase) (o pbt.Outcome, err error) {
 	a := resolve(c.Ali, c.F)
 	sizeClass(&o, c.F)
-	al := gen.MustBuild(a)
-	l := a.Length()
-	anyTie, anyFallback := false, false
 	reps := 30 // further calls that must return the same; fewer on the tall and long alignments
 	if c.F != nil {
 		reps = 6
 	}
+	return majorityOn(gen.MustBuild(a), a, reps, o)
+}
+
+func majorityOn(al align.Alignment, a gen.Ali, reps int, o pbt.Outcome) (pbt.Outcome, error) {
+	l := a.Length()
+	anyTie, anyFallback := false, false
 	for m := 0; m < 4; m++ {
 		ig, in := m&1 != 0, m&2 != 0
 		out, occur, total := al.MaxCharStats(ig, in)
@@ -587,7 +594,10 @@ func alphabetChars(alpha string) string {
 func checkSiteMeasures(c siteCase) (o pbt.Outcome, err error) {
 	a := resolve(c.Ali, c.F)
 	sizeClass(&o, c.F)
-	al := gen.MustBuild(a)
+	return siteMeasuresOn(gen.MustBuild(a), a, c, o)
+}
+
+func siteMeasuresOn(al align.Alignment, a gen.Ali, c siteCase, o pbt.Outcome) (pbt.Outcome, error) {
 	n, l := len(a.Rows), a.Length()
 	w := wildOf(a.Alphabet)
 	other := byte('X')
